@@ -89,6 +89,19 @@ fn gen_c16(o: &mut Out, tier: &str, seed: u64) {
     }
 }
 
+/// C06: every honest statement of all twelve instructions, proved by the Rust prover and by the
+/// model prover, verified by both verifiers; the two Pedersen generators byte-compared
+fn gen_c06(o: &mut Out, tier: &str, seed: u64) {
+    // the generators G and H as `with(1,0)` and `with(0,1)`
+    let one = "0100000000000000000000000000000000000000000000000000000000000000";
+    let zero = "0000000000000000000000000000000000000000000000000000000000000000";
+    o.op("generator.G", &format!("elg with {} {}", one, zero));
+    o.op("generator.H", &format!("elg with {} {}", zero, one));
+    crate::gen_sigma::gen_c05(o, tier, seed ^ 0x6);
+    crate::gen_range::gen_range_new(o, tier, seed ^ 0x6, true);
+    crate::gen_range::gen_c06_range(o, tier, seed ^ 0x6);
+}
+
 pub fn generate(prop: &str, tier: &str, seed: u64, w: &mut dyn Write) {
     let mut o = Out { w, n: 0, prop: prop.to_string() };
     match prop {
@@ -99,6 +112,7 @@ pub fn generate(prop: &str, tier: &str, seed: u64, w: &mut dyn Write) {
         "C03" => crate::gen_sigma::gen_c03(&mut o, tier, seed),
         "C04" => crate::gen_range::gen_c04(&mut o, tier, seed),
         "C05" => { crate::gen_sigma::gen_c05(&mut o, tier, seed); crate::gen_range::gen_range_new(&mut o, tier, seed, true) }
+        "C06" => gen_c06(&mut o, tier, seed),
         "C08" => crate::gen_enc::gen_c08(&mut o, tier, seed),
         "C09" => crate::gen_enc::gen_c09(&mut o, tier, seed),
         "C11" => crate::gen_enc::gen_c11(&mut o, tier, seed),
